@@ -6,6 +6,8 @@ from core import VERIF
 from mirq import callee
 from props import net
 
+THOROUGH_CONFIGS = ["default", "blocking", "websocket", "all"]
+
 EXPLANATION = (
     "A6: rustc's CoroutineLayout of the tokio Framed::read future gives, for every suspension point, the locals that stay alive "
     "while the future is parked. R19.1: at every suspension point of read (recursively through the workspace coroutines it awaits) "
